@@ -3,6 +3,7 @@ package node
 import (
 	"bytes"
 	"context"
+	"encoding/binary"
 	"fmt"
 	"sort"
 	"strings"
@@ -282,6 +283,31 @@ func (n *Node) Dump() []KV {
 	return out
 }
 
+// ParamHeights lists, in ascending order, the heights at which a BFT parameter set is stored, read from the raw key space
+// (state prefix | module id 11 | sub-store 0x0000 | height) without going through the liskbft API.
+func (n *Node) ParamHeights() []uint32 {
+	pfx := append(append([]byte{}, blockchain.DBPrefixToBytes(blockchain.DBPrefixState)...), 0, 0, 0, 11, 0, 0)
+	var out []uint32
+	for _, kv := range n.DB.Iterate(pfx, -1, false) {
+		k := kv.Key()
+		if len(k) == len(pfx)+4 {
+			out = append(out, binary.BigEndian.Uint32(k[len(pfx):]))
+		}
+	}
+	sort.Slice(out, func(i, j int) bool { return out[i] < out[j] })
+	return out
+}
+
+// NextParamHeight is the smallest stored parameter height greater than h (LIP-0058 getNextHeightBFTParameters), from ParamHeights.
+func (n *Node) NextParamHeight(h uint32) (uint32, bool) {
+	for _, x := range n.ParamHeights() {
+		if x > h {
+			return x, true
+		}
+	}
+	return 0, false
+}
+
 // SlotOf returns the slot number of a timestamp.
 func (n *Node) SlotOf(ts uint32) int { return n.Slot.GetSlotNumber(ts) }
 
@@ -320,15 +346,15 @@ func (n *Node) LastGeneratedHeight(addr []byte) uint32 {
 
 // Spec describes the block to build on the current tip.
 type Spec struct {
-	SlotGap   int  // slots after the tip's slot (default 1)
-	AbsSlot   int  // if > 0: absolute slot number (overrides SlotGap)
-	MHG       *uint32
-	Script    Script
-	NoScript  bool // do not attach the script asset (empty block assets)
+	SlotGap     int // slots after the tip's slot (default 1)
+	AbsSlot     int // if > 0: absolute slot number (overrides SlotGap)
+	MHG         *uint32
+	Script      Script
+	NoScript    bool // do not attach the script asset (empty block assets)
 	ExtraAssets []*blockchain.BlockAsset
-	Txs       []*blockchain.Transaction
-	Agg       *blockchain.AggregateCommit
-	TSOffset  uint32 // seconds inside the slot
+	Txs         []*blockchain.Transaction
+	Agg         *blockchain.AggregateCommit
+	TSOffset    uint32 // seconds inside the slot
 }
 
 // MakeTx builds a signed transaction from pool key `sender` whose behaviour is scripted by outcome/events.
